@@ -189,6 +189,8 @@ fn rel_err_q(e: &RelationalError) -> String {
     }
 }
 
+static BLOB_CHUNK: std::sync::atomic::AtomicUsize = std::sync::atomic::AtomicUsize::new(0);
+
 /// the real system under test
 struct Sys {
     router: QueryRouter,
@@ -205,7 +207,12 @@ impl Sys {
     /// `auto`: auto-checkpoint before destructive statements, no interactive confirmation
     fn new_with(max: usize, auto: bool) -> Sys {
         let mut router = QueryRouter::new();
-        router.init_blob_with_config(BlobConfig::default()).expect("init_blob");
+        // blob chunk size of the checkpoint store: 0 = the default (1 MB: one chunk per checkpoint);
+        // small = checkpoints are split into many content-addressed chunks, which successive
+        // checkpoints of similar data SHARE (retention / delete must not take a survivor's chunks)
+        let chunk = BLOB_CHUNK.load(std::sync::atomic::Ordering::Relaxed);
+        let cfg = if chunk == 0 { BlobConfig::default() } else { BlobConfig::default().with_chunk_size(chunk) };
+        router.init_blob_with_config(cfg).expect("init_blob");
         router
             .init_checkpoint_with_config(
                 CheckpointConfig::new()
@@ -357,6 +364,122 @@ impl Sys {
                 }
             }
         }
+    }
+
+    /// The same questions through the router TEXT API (`SELECT`, `NODE GET`, `NEIGHBORS`,
+    /// `EMBED GET`, `SIMILAR` via `execute_parsed`), checked against the engine-level image `img`
+    /// taken at the same moment (which is what the model is compared with after every statement).
+    /// Returns one line per answer that differs.
+    fn text_api_diffs(&self, img: &Image) -> Vec<String> {
+        let mut out = vec![];
+        let ex = |q: &str| self.router.execute_parsed(q);
+        for (t, scan, _, _) in &img.tables {
+            let q = format!("SELECT * FROM {}", Self::tname(*t));
+            let got = match ex(&q) {
+                Ok(QueryResult::Rows(rows)) => {
+                    let mut items: Vec<(u64, String)> = rows
+                        .iter()
+                        .map(|r| {
+                            let g = |c: &str| match r.get(c) {
+                                Some(Value::Int(x)) => x.to_string(),
+                                other => format!("?{other:?}"),
+                            };
+                            (r.id, format!("{}.{}.{}", r.id, g("k"), g("v")))
+                        })
+                        .collect();
+                    items.sort();
+                    format!("ok:{}", items.into_iter().map(|p| p.1).collect::<Vec<_>>().join(","))
+                }
+                Ok(other) => format!("?{other:?}"),
+                Err(e) => {
+                    let l = e.to_string().to_lowercase();
+                    if l.contains("storage error") {
+                        "err:storage".into()
+                    } else if l.contains("not found") {
+                        "err:notfound".into()
+                    } else {
+                        format!("err:other:{e}")
+                    }
+                }
+            };
+            if &got != scan {
+                out.push(format!("{q}: text {got} / engine {scan}"));
+            }
+        }
+        for n in img.nodes.split(',').filter(|x| !x.is_empty()) {
+            let (id, label) = n.split_once(':').unwrap_or((n, "?"));
+            let q = format!("NODE GET {id}");
+            let got = match ex(&q) {
+                Ok(QueryResult::Nodes(ns)) => {
+                    ns.iter().map(|x| format!("{}:{}", x.id, x.label.strip_prefix('L').unwrap_or(&x.label))).collect::<Vec<_>>().join(",")
+                }
+                other => format!("?{other:?}"),
+            };
+            if got != format!("{id}:{label}") {
+                out.push(format!("{q}: text {got} / engine {id}:{label}"));
+            }
+        }
+        for b in img.nbrs.split(',').filter(|x| !x.is_empty()) {
+            let (id, want) = b.split_once(':').unwrap_or((b, ""));
+            let q = format!("NEIGHBORS {id} BOTH");
+            let got = match ex(&q) {
+                Ok(QueryResult::Ids(mut ids)) => {
+                    ids.sort_unstable();
+                    ids.dedup();
+                    dots(&ids)
+                }
+                other => format!("?{other:?}"),
+            };
+            let mut w: Vec<u64> = want.split('.').filter_map(|x| x.parse().ok()).collect();
+            w.sort_unstable();
+            w.dedup();
+            if got != dots(&w) {
+                out.push(format!("{q}: text {got} / engine {want}"));
+            }
+        }
+        let mut dim3: Vec<u64> = vec![];
+        for e in img.embs.split(',').filter(|x| !x.is_empty()) {
+            let (k, want) = e.split_once(':').unwrap_or((e, ""));
+            if want.split('.').count() == 3 {
+                if let Ok(k) = k.parse() {
+                    dim3.push(k);
+                }
+            }
+            let q = format!("EMBED GET 'e{k}'");
+            let got = match ex(&q) {
+                Ok(QueryResult::Value(s)) => s
+                    .trim_matches(|c| c == '[' || c == ']')
+                    .split(',')
+                    .filter_map(|x| x.trim().parse::<f32>().ok())
+                    .map(|x| (x as i64).to_string())
+                    .collect::<Vec<_>>()
+                    .join("."),
+                other => format!("?{other:?}"),
+            };
+            if got != want {
+                out.push(format!("{q}: text {got} / engine {want}"));
+            }
+        }
+        // SIMILAR does a brute-force scan (never the vector engine's cached HNSW index): it must
+        // answer exactly the stored embeddings of the query's dimension
+        dim3.sort_unstable();
+        // (non-negative components: `-x` in a vector literal is rejected by execute_parsed — the
+        // known C15 finding negative_number_rejected)
+        for qv in [vec![1i64, 1, 1], vec![1, 0, 2]] {
+            let q = format!("SIMILAR [{}] LIMIT 64", qv.iter().map(|x| format!("{x}.0")).collect::<Vec<_>>().join(", "));
+            let got = match ex(&q) {
+                Ok(QueryResult::Similar(rs)) => {
+                    let mut ks: Vec<u64> = rs.iter().filter_map(|r| r.key.strip_prefix('e').and_then(|s| s.parse().ok())).collect();
+                    ks.sort_unstable();
+                    dots(&ks)
+                }
+                other => format!("?{other:?}"),
+            };
+            if got != dots(&dim3) {
+                out.push(format!("{q}: text {got} / stored embeddings of that dimension {}", dots(&dim3)));
+            }
+        }
+        out
     }
 
     /// (real id, name, created_at) of every listed checkpoint
@@ -937,6 +1060,16 @@ fn run_case(ctx: &mut Ctx, m: &mut Model, stream: &str, mode: Mode, max: usize, 
             Op::Ckpt(name) => {
                 // the harness-side snapshot oracle: the real image at checkpoint time
                 let before = sys.image();
+                let td = sys.text_api_diffs(&before);
+                ctx.rep.hit("text_api:checked_at_checkpoint");
+                if !td.is_empty() {
+                    violated = true;
+                    ctx.violation(
+                        "query_router.text_api/answer_differs_from_engine",
+                        &format!("at CHECKPOINT the router text statements answer differently from the engines: {}", td.join(" ; ")),
+                        json!({"stream": stream, "ops": trace.clone()}),
+                    );
+                }
                 let live_before = sys.live_ids();
                 let ts = tss.get(ck_i).copied().unwrap_or(1000 + ck_i as u64);
                 ck_i += 1;
@@ -1146,6 +1279,16 @@ fn run_case(ctx: &mut Ctx, m: &mut Model, stream: &str, mode: Mode, max: usize, 
                     }
                     after_rollback = true;
                     let now = sys.image();
+                    let td = sys.text_api_diffs(&now);
+                    ctx.rep.hit("text_api:checked_after_rollback");
+                    if !td.is_empty() {
+                        violated = true;
+                        ctx.violation(
+                            "query_router.text_api/answer_differs_from_engine",
+                            &format!("after ROLLBACK the router text statements answer differently from the engines: {}", td.join(" ; ")),
+                            json!({"stream": stream, "ops": trace.clone(), "target": code}),
+                        );
+                    }
                     if let Some(then) = oracle.get(n) {
                         for (class, what) in diff_images(then, &now) {
                             violated = true;
@@ -1258,6 +1401,9 @@ fn stream_router(ctx: &mut Ctx, m: &mut Model, rng: &Rng, cases: usize, mode: Mo
         let mut n_ck = 0u64;
         let mut n_auto = 0u64;
         let raw_mix = r.chance(1, 3);
+        let chunk = if r.chance(1, 4) { [96usize, 512][r.below(2) as usize] } else { 0 };
+        BLOB_CHUNK.store(chunk, std::sync::atomic::Ordering::Relaxed);
+        ctx.rep.hit(if chunk == 0 { "blob_chunk:default" } else { "blob_chunk:small_shared" });
         for _ in 0..len {
             let mut op = gen_op(&mut r, &mut g, n_ck, raw_mix, mode);
             if mode == Mode::Auto && r.chance(2, 3) {
@@ -1302,6 +1448,7 @@ fn stream_router(ctx: &mut Ctx, m: &mut Model, rng: &Rng, cases: usize, mode: Mo
         }
         let (agreed, _v) = run_case(ctx, m, name, mode, max, &ops, &tss, true);
         if !agreed {
+            ctx.rep.note(&format!("{name}: the disagreeing case ran with blob chunk size {chunk} (0 = default)"));
             // shrink the op list for the replay file
             let mut scratch = Ctx { rep: Report::new(""), per_class: BTreeMap::new() };
             let small = shrink_list(&ops, &mut |cand: &[Op]| {
@@ -1314,6 +1461,7 @@ fn stream_router(ctx: &mut Ctx, m: &mut Model, rng: &Rng, cases: usize, mode: Mo
             ));
         }
     }
+    BLOB_CHUNK.store(0, std::sync::atomic::Ordering::Relaxed);
 }
 
 /// hand-written scenarios = the Lean witnesses, replayed on the real code (also run first)
@@ -1353,6 +1501,21 @@ fn stream_witness(ctx: &mut Ctx, m: &mut Model) {
         ctx.rep.hit(&format!("witness:{name}"));
         run_case(ctx, m, "witness", Mode::Manager, 10, &ops, &tss, true);
     }
+    // small blob chunks: the three checkpoints share most of their chunks; retention (max 2) and a
+    // manual delete remove some of them, the survivors must stay loadable and restore exactly
+    BLOB_CHUNK.store(96, std::sync::atomic::Ordering::Relaxed);
+    ctx.rep.hit("witness:shared_chunks");
+    run_case(
+        ctx,
+        m,
+        "witness",
+        Mode::Manager,
+        2,
+        &[kp(1), Op::GNode(1), Op::VPut(0, vec![1, 2, 3]), CK, kp(2), CK, kp(3), CK, Op::CkTop(5), rb(1), kp(4), CK, CK, Op::CkDel(3), rb(4)],
+        &[5, 6, 7, 8, 9],
+        true,
+    );
+    BLOB_CHUNK.store(0, std::sync::atomic::Ordering::Relaxed);
     // auto-checkpoints before destructive text statements: the checkpoint holds the state BEFORE
     // the statement; rollback to it by name and by id
     let acases: Vec<(&str, Vec<Op>)> = vec![
@@ -1750,7 +1913,7 @@ fn main() {
         "op:rcreate", "op:rdrop", "op:rins", "op:rdel", "op:rhidx", "op:rbidx", "op:gnode", "op:gedge", "op:gdeln",
         "op:gdele", "op:vput", "op:vdel", "op:vbuild", "op:kput", "op:kdel", "op:ckpt", "op:rollback",
         "op:ckpt_named", "op:rollback_by_id", "op:ckdel", "op:cktop", "rollback:id_shadowed_by_name",
-        "rollback:by_shared_or_foreign_name", "directed:dense_embedding", "directed:dense_vector_engine_exact", "op:text_delete", "op:text_node_delete", "op:text_embed_delete", "auto_checkpoint:created", "slab:set", "slab:del", "slab:clear", "slab:compact", "slab:reload",
+        "rollback:by_shared_or_foreign_name", "blob_chunk:default", "blob_chunk:small_shared", "text_api:checked_after_rollback", "text_api:checked_at_checkpoint", "directed:dense_embedding", "directed:dense_vector_engine_exact", "op:text_delete", "op:text_node_delete", "op:text_embed_delete", "auto_checkpoint:created", "slab:set", "slab:del", "slab:clear", "slab:compact", "slab:reload",
         "res:ok", "res:id", "res:count", "res:err notfound", "res:err exists", "res:err storage",
         "retention:tie_at_boundary", "retention:incremental", "retention:bulk", "raw:restore",
         "directed:tensor_store.restore_from_bytes/relational_tables_lost",
